@@ -233,3 +233,196 @@ def check_half_grouping(facts, rep):
                       ' - connected pieces stay unmerged, the chosen half depends on the listing order and can contain a crossing and its mirror image', where=b.where())
     else:
         rep.ok('E7b.K6-all-pairs-union', inst, 'two nested exhaustive loops; calls before the union: %s' % sorted(calls_between))
+
+
+def check_cone(facts, rep):
+    """K7: KhIComplex::from_kh_complex is the mapping cone of 1 + tau: in degree i the generators are B(x), x in C_i, and
+    Q(x), x in C_{i-1}; the range is extended by one at the top; d(B x) = B(dx) + Q(x) + Q(tau x) and d(Q x) = Q(dx);
+    each canonical cycle z contributes B z and Q z."""
+    root = 'yui_kh::khi::complex::KhIComplex::<R>::from_kh_complex'
+    b = facts.bodies.get(root)
+    if b is None:
+        rep.indet('E7b.K7: from_kh_complex not found')
+        return
+    rep.saw(b)
+
+    def sk2(t):
+        return re.sub(r'\^_ref__', '^', re.sub(r'#\d+\.\d+', '', show(t, -1000))).replace('&', '').replace('*', '')
+
+    def wrap_of(clo, owner):
+        """closure term -> 'B' / 'Q' when it is |x| KhIGen::B(*x) / Q(*x)"""
+        clo = strip(clo)
+        if clo[0] != 'closure':
+            return None
+        cb = facts.bodies.get(clo[1])
+        if cb is None:
+            return None
+        rr = {sk2(p.ret) for p in SymEx(cb).run() if p.end == 'return'}
+        if rr == {'KhIGen::B{0: arg2}'}:
+            return 'B'
+        if rr == {'KhIGen::Q{0: arg2}'}:
+            return 'Q'
+        return None
+    top = [p.ret for p in SymEx(b).run() if p.end == 'return']
+    probs = []
+    d_clo = gen_clo = None
+    if len(top) == 1:
+        s = sk2(top[0])
+        if 'generate(new(start(h_range(arg1)), add(end(h_range(arg1)), 1)),' not in s:
+            probs.append('the homological range is not h_range.start ..= h_range.end + 1 (%s)' % s[:120])
+    else:
+        rep.indet('E7b.K7: from_kh_complex has %d return shapes' % len(top))
+        return
+    for k, cb in facts.bodies.items():
+        if not k.startswith(root + '::{closure') or k.count('{closure') != 1:
+            continue
+        for p in SymEx(cb).run():
+            if p.end != 'return':
+                continue
+            r = strip(p.ret)
+            if r[0] == 'call' and r[1].split('::')[-1] == 'from_raw_gens':
+                gen_clo = (cb, r)
+            if any(sk2(e.term) == 'discr(arg3)' for e in p.branches()):
+                d_clo = cb
+    if gen_clo is None or d_clo is None:
+        rep.indet('E7b.K7: generator / differential closures of from_kh_complex not found')
+        return
+    # generators
+    r = gen_clo[1]
+    ch = strip(r[2][0])
+    ok_g = False
+    if ch[0] == 'call' and ch[1].split('::')[-1] == 'chain' and len(ch[2]) == 2:
+        parts = []
+        for a in ch[2]:
+            a = strip(a)
+            if a[0] == 'call' and a[1].split('::')[-1] == 'map' and len(a[2]) == 2:
+                parts.append((sk2(a[2][0]), wrap_of(a[2][1], gen_clo[0])))
+        ok_g = parts == [('iter(raw_gens(index(arg1.^c, arg2)))', 'B'), ('iter(raw_gens(index(arg1.^c, SubWithOverflow(arg2, 1).0)))', 'Q')]
+        if not ok_g:
+            probs.append('degree i is generated by %s, expected B(C_i) then Q(C_{i-1})' % parts)
+    else:
+        probs.append('generators are not chain(B gens, Q gens)')
+    # differential
+    arms = {}
+    for p in SymEx(d_clo).run():
+        if p.end != 'return':
+            continue
+        v = next((e.value for e in p.branches() if sk2(e.term) == 'discr(arg3)'), None)
+        arms[v] = p.ret
+
+    def summands(t):
+        t = strip(t)
+        if t[0] == 'call' and t[1].split('::')[-1] == 'add' and len(t[2]) == 2:
+            return summands(t[2][0]) + summands(t[2][1])
+        return [t]
+
+    def classify(t, var):
+        s = sk2(t)
+        if t[0] == 'call' and t[1].split('::')[-1] == 'map_gens' and len(t[2]) == 2:
+            w = wrap_of(t[2][1], d_clo)
+            if sk2(t[2][0]) == 'd(arg1.^c, arg2, from(arg3.%s.0))' % var:
+                return '%s(dx)' % w
+        if s == 'from(KhIGen::Q{0: arg3.%s.0})' % var:
+            return 'Q(x)'
+        if s == 'from(KhIGen::Q{0: call(arg1.^map, (arg3.%s.0))})' % var:
+            return 'Q(tau x)'
+        if s == 'from(KhIGen::B{0: arg3.%s.0})' % var:
+            return 'B(x)'
+        return '?' + s[:60]
+    if set(arms) != {0, 1}:
+        rep.indet('E7b.K7: differential closure has arms %s' % sorted(arms, key=str))
+        return
+    got_b = sorted(classify(x, 'B') for x in summands(arms[0]))
+    got_q = sorted(classify(x, 'Q') for x in summands(arms[1]))
+    if got_b != ['B(dx)', 'Q(tau x)', 'Q(x)']:
+        probs.append('d(B x) = %s, expected B(dx) + Q(x) + Q(tau x)' % ' + '.join(got_b))
+    if got_q != ['Q(dx)']:
+        probs.append('d(Q x) = %s, expected Q(dx)' % ' + '.join(got_q))
+    inst = 'KhIComplex::from_kh_complex|mapping cone of 1 + tau'
+    if probs:
+        rep.violation('E7b.K7-cone', inst, 'KhIComplex::from_kh_complex: ' + '; '.join(probs), where=b.where())
+    else:
+        rep.ok('E7b.K7-cone', inst, 'B(C_i) + Q(C_{i-1}); d(Bx) = B dx + Qx + Q tau x; d(Qx) = Q dx')
+
+
+def check_inv_link(facts, rep):
+    """K8: the involution data of an InvLink. (a) InvLink::new records x -> y and, when x != y, y -> x (the crossing map is
+    closed under tau); (b) the strongly-invertible-knot edge map e -> (n + 1 - e) % n + 1 is an involution of 1..n fixing the
+    base point 1 (folded for even n up to 24); (c) mirror() mirrors both sides of every crossing pair and keeps e_map / base_pt."""
+    from dtree import DTree, Stuck
+    K = 'yui_link::inv_link::InvLink::'
+    nb = facts.bodies.get(K + 'new')
+    mb = facts.bodies.get(K + 'mirror')
+    cb = facts.bodies.get(K + 'sinv_knot_from_code::{closure#0}')
+    if not (nb and mb and cb):
+        rep.indet('E7b.K8: InvLink::{new, mirror, sinv_knot_from_code closure} not found')
+        return
+    for b in (nb, mb, cb):
+        rep.saw(b)
+    # (a)
+    shapes = set()
+    for p in SymEx(nb, havoc_loops=True, max_paths=20000).run():
+        ins = [tuple(re.sub(r'&mut _\d+', 'IT', sk(a)) for a in e.args[1:]) for e in p.calls() if e.name.split('::')[-1] == 'insert' and len(e.args) == 3]
+        ne = [(re.sub(r'&mut _\d+', 'IT', sk(e.term)), e.value != 0) for e in p.branches() if sk(e.term).startswith('ne(')]
+        if ins:
+            shapes.add((tuple(ins), tuple(ne)))
+    X = 'clone(next(IT).Some.0)'
+    ok_a = len(shapes) == 2
+    for ins, ne in shapes:
+        if len(ne) != 1 or not ins or ins[0][0] != X:
+            ok_a = False
+            continue
+        y = ins[0][1]
+        if ne[0][1]:
+            ok_a = ok_a and list(ins) == [(X, y), (y, X)]
+        else:
+            ok_a = ok_a and list(ins) == [(X, y)]
+    inst = 'InvLink::new|x -> y and, unless x = y, y -> x'
+    if ok_a:
+        rep.ok('E7b.K8-inv-link', inst, 'both directions recorded')
+    elif not shapes:
+        rep.indet('E7b.K8: no x_map insertion found in InvLink::new')
+    else:
+        rep.violation('E7b.K8-inv-link', inst, 'InvLink::new records %s: the crossing involution must contain y -> x whenever it contains x -> y' % sorted(shapes, key=str)[:2], where=nb.where())
+    # (b)
+    dt = DTree(facts)
+    bad = None
+    try:
+        for n in range(2, 26, 2):
+            def atom(t, ev, n=n):
+                s = sk(t).replace('*', '').replace('&', '')
+                if re.match(r'arg1\.\^(_ref__)?n$', s):
+                    return (n,)
+                return None
+            f = {}
+            for e in range(1, n + 1):
+                v, _ = dt.decide(cb.defp, {2: e}, atom)
+                f[e] = v
+            if f[1] != 1 and bad is None:
+                bad = 'n = %d: the base point 1 is mapped to %d' % (n, f[1])
+            for e in range(1, n + 1):
+                if not (1 <= f[e] <= n) or f.get(f[e]) != e:
+                    bad = bad or 'n = %d: tau(%d) = %d but tau(%s) = %s' % (n, e, f[e], f[e], f.get(f[e]))
+    except Stuck as e:
+        rep.indet('E7b.K8: edge involution formula outside the recognised fragment: %s' % e)
+        return
+    inst = 'InvLink::sinv_knot_from_code|e -> (n + 1 - e) % n + 1 is an involution fixing 1'
+    if bad:
+        rep.violation('E7b.K8-inv-link', inst, 'the edge map of a strongly invertible knot is not an involution fixing the base point: ' + bad, where=cb.where())
+    else:
+        rep.ok('E7b.K8-inv-link', inst, 'checked for even n <= 24')
+    # (c)
+    def dk(t):
+        return re.sub(r'#\d+\.\d+', '', show(t, -1000))
+    rr = [dk(p.ret) for p in SymEx(mb).run() if p.end == 'return']
+    pair = None
+    for k, b2 in facts.bodies.items():
+        if k == K + 'mirror::{closure#0}':
+            pair = [dk(p.ret) for p in SymEx(b2).run() if p.end == 'return']
+    inst = 'InvLink::mirror|mirrors both sides of every crossing pair'
+    if rr == ['InvLink::InvLink{link: mirror(&*arg1.link), base_pt: *arg1.base_pt, e_map: clone(&*arg1.e_map), x_map: collect(map(iter(&*arg1.x_map), closure<{closure#0}>))}'] and pair == ['(mirror(arg2.0), mirror(arg2.1))']:
+        rep.ok('E7b.K8-inv-link', inst, '(x.mirror(), y.mirror())')
+    elif pair and len(pair) == 1 and re.match(r'\(((mirror|clone)\()?&?\*?arg2\.0\)?, ((mirror|clone)\()?&?\*?arg2\.1\)?\)$', pair[0]):
+        rep.violation('E7b.K8-inv-link', inst, 'InvLink::mirror maps a crossing pair to %s: both sides must be mirrored, otherwise inv_x of a mirrored crossing is not a crossing of the mirrored link' % pair[0], where=mb.where())
+    else:
+        rep.indet('E7b.K8: InvLink::mirror outside the recognised fragment: %s / %s' % (rr, pair))
